@@ -355,11 +355,18 @@ pub fn main(args: &Args) {
     if let Some(p) = &args.replay {
         run_lines(&hv_common::read_lines(p), &mut rec);
     } else {
+        // programs of the fixed sample that the production builder refused at build time
+        for (i, (tape, msg)) in hv_net_gen::gen_c41::BUILD_FAILURES.iter().enumerate() {
+            let tape = parse_hex(tape).unwrap_or_default();
+            run_case(900_000 + i as u64, &tape, false, &mut rec);
+            rec.check(false, "sample-program-failed-in-production-builder-at-build-time", msg);
+        }
+        rec.count_n("rustc-compiled-sample-programs", hv_net_gen::gen_c41::SAMPLE as u64 - hv_net_gen::gen_c41::BUILD_FAILURES.len() as u64);
         let base = Rng::new(args.seed);
         for n in 1..=args.cases {
             let mut rng = base.fork(n);
             let tape = gen_tape(&mut rng, &args.tier);
-            let bad = rng.chance(1, 5);
+            let bad = rng.chance(1, 3);
             run_case(n, &tape, bad, &mut rec);
         }
     }
